@@ -4,3 +4,9 @@ CLAIMS["C01"] = dict(
     text="Every program of the prec/bool/nest/expr/multi families x every assignment over the per-type value domains is executed on a fresh real Kconfig; value, visibility and assignable set are compared with an independent reference evaluator, and all outputs are compared between an assignment and the same assignment minus hidden options. Complete within the stated alphabets (small-scope), nothing sampled.",
     note="Trusts mck/refsem.py as the reading of language.rst; alphabets exclude constructs the documents are silent on.",
 )
+CLAIMS["C03"] = dict(
+    category="model_checking",
+    technique="explicit-state BFS over histories of write and READ events on the real evaluator (cache-fill bits in the state key); twin-instance recompute / fresh-instance / read-order oracles",
+    text="For one program per dependency-edge kind (and all 2-hop chains) every interleaving of set/unset/reset/load/merge with reads of individual options up to depth 4 (quick) / 5 (thorough) is executed on fresh real instances; after each transition the API observation is compared with the observation after discarding all caches, with a fresh instance given the final user state (both orders) and with a reversed read order. Exhaustive within the op alphabet and depth; states merged only on an over-fine key.",
+    note="Final user state is read from the implementation's own _user_value/_user_selection; op alphabet per program is 2 values per settable option.",
+)
